@@ -1,41 +1,58 @@
 (* C09 — fee distributor: epoch ledgers balance and no epoch is paid twice.
    Model: theories/Distributor.v (single distribution asset; bonding share and first bonded epoch are oracles
    carried by the Claim op: ANY non-negative Decimal, or a failing / aborting query). Histories: any interleaving of
-   NewEpoch (any forwarded fee >= 0, collector faults), Claim (any address) and grace-period changes, at any times;
-   rejected and aborting calls leave the state unchanged. *)
+   NewEpoch (any forwarded fee >= 0, collector faults), Claim (any address), grace-period changes and plain bank
+   transfers of the distribution asset to the distributor's address by anybody (DStray: they run no contract code and
+   belong to no epoch), at any times; rejected and aborting calls leave the state unchanged. *)
 From WW Require Import Prim Params Epochs Distributor.
 From WW.Proofs Require Import ArithLemmas DistributorProofs.
 
 (* in every reachable state: stored ids are exactly n..1; every epoch that still holds funds satisfies
-   claimed + available = total; the distributor's balance is exactly the sum of the available amounts (in particular
-   at least that sum); the grace period is >= 1; and every epoch that left the grace window has an empty `available` *)
-Theorem C09_invariant : forall c g h, 1 <= g -> dhist_wf h -> Inv (dsrun c g h).
+   claimed + available = total; the distributor's balance is exactly the sum of the available amounts plus what plain
+   transfers added (k >= 0: in particular it is at least that sum); the grace period is >= 1; and every epoch that left
+   the grace window has an empty `available` *)
+Theorem C09_invariant : forall c g h, 1 <= g -> dhist_wf h ->
+  Inv (strays (dseffects c (dinit g) h)) (dsrun c g h).
 Proof. exact distributor_inv. Qed.
 
 Theorem C09_epoch_ledger : forall c g h e, 1 <= g -> dhist_wf h -> In e (d_epochs (dsrun c g h)) ->
   match de_avail e with Some av => 0 <= av /\ oz (de_claimed e) + av = oz (de_total e) | None => True end.
 Proof.
-  intros c g h e G W I. pose proof (inv_ledger _ (distributor_inv c g h G W)) as F.
+  intros c g h e G W I. pose proof (inv_ledger _ _ (distributor_inv c g h G W)) as F.
   rewrite Forall_forall in F. destruct (F e I) as (_ & _ & L). exact L.
 Qed.
 
+(* the distributor always holds at least the sum of all epochs' available amounts — exactly that sum plus the plain
+   transfers it received; without such transfers, exactly that sum *)
 Theorem C09_distributor_solvent : forall c g h, 1 <= g -> dhist_wf h ->
+  sum_avail (d_epochs (dsrun c g h)) <= d_bal (dsrun c g h) /\
+  d_bal (dsrun c g h) = sum_avail (d_epochs (dsrun c g h)) + strays (dseffects c (dinit g) h).
+Proof.
+  intros c g h G W. pose proof (inv_bal _ _ (distributor_inv c g h G W)) as B.
+  pose proof (strays_nonneg c g h G W). split; [lia | exact B].
+Qed.
+
+Theorem C09_distributor_exact_without_transfers : forall c g h, 1 <= g -> dhist_wf h ->
+  forallb (fun e => negb (is_stray (snd e))) h = true ->
   d_bal (dsrun c g h) = sum_avail (d_epochs (dsrun c g h)).
-Proof. intros c g h G W. apply (inv_bal _ (distributor_inv c g h G W)). Qed.
+Proof.
+  intros c g h G W F. pose proof (inv_bal _ _ (distributor_inv c g h G W)) as B.
+  rewrite (no_stray_effects c h (dinit g) F) in B. lia.
+Qed.
 
 Theorem C09_expired_empty : forall c g h e, 1 <= g -> dhist_wf h ->
   let s := dsrun c g h in
   In e (d_epochs s) -> de_id e <= Z.of_nat (length (d_epochs s)) - d_grace s -> de_avail e = None.
 Proof.
-  intros c g h e G W s I. pose proof (inv_expired _ (distributor_inv c g h G W)) as F.
+  intros c g h e G W s I. pose proof (inv_expired _ _ (distributor_inv c g h G W)) as F.
   unfold expired_empty in F. rewrite Forall_forall in F. apply F. exact I.
 Qed.
 
 (* an accepted NewEpoch: the epoch leaving the grace window (the g-th newest, if g epochs exist) has its remainder
    added to the new epoch's total — exactly once, because its `available` is emptied in the same step — and nothing
    else changes; the new epoch starts with available = total and nothing claimed *)
-Theorem C09_new_epoch_rollover : forall c now s ok fee s',
-  Inv s -> 0 <= fee -> new_epoch c now s ok fee = Ok s' ->
+Theorem C09_new_epoch_rollover : forall k c now s ok fee s',
+  Inv k s -> 0 <= fee -> new_epoch c now s ok fee = Ok s' ->
   let g := Z.to_nat (d_grace s) in
   d_cursor s' = d_cursor s /\ d_grace s' = d_grace s /\ d_bal s' = d_bal s + fee /\
   exists ne, de_id ne = Z.of_nat (S (length (d_epochs s))) /\ de_avail ne = de_total ne /\ de_claimed ne = None /\
@@ -49,9 +66,9 @@ Proof. exact new_epoch_spec. Qed.
 (* an accepted Claim: the payout equals the decrease of the available ledgers = the increase of the claimed ledgers =
    the decrease of the balance; ids, start times and totals are untouched; every epoch paid lies in the grace window,
    above the claimer's cursor (or, without a cursor, above its first bonded epoch) and at most the new cursor *)
-Theorem C09_claim_exact : forall s who fb shares s' p,
-  Inv s -> shares_wf shares -> claim s who fb shares = Ok (s', p) ->
-  Inv s' /\ 0 <= p /\
+Theorem C09_claim_exact : forall k s who fb shares s' p,
+  Inv k s -> shares_wf shares -> claim s who fb shares = Ok (s', p) ->
+  Inv k s' /\ 0 <= p /\
   p = sum_avail (d_epochs s) - sum_avail (d_epochs s') /\
   p = sum_claimed (d_epochs s') - sum_claimed (d_epochs s) /\
   d_bal s' = d_bal s - p /\ d_grace s' = d_grace s /\
@@ -68,9 +85,9 @@ Theorem C09_paid_once : forall c g h who, 1 <= g -> dhist_wf h ->
 Proof. exact distributor_paid_once. Qed.
 
 (* the grace period only grows (what the expiry argument rests on) *)
-Theorem C09_grace_monotone : forall s admin g s',
-  Inv s -> set_grace s admin g = Ok s' ->
-  Inv s' /\ admin = true /\ d_grace s <= g <= Params.MAX_GRACE_PERIOD /\ d_grace s' = g /\
+Theorem C09_grace_monotone : forall k s admin g s',
+  Inv k s -> set_grace s admin g = Ok s' ->
+  Inv k s' /\ admin = true /\ d_grace s <= g <= Params.MAX_GRACE_PERIOD /\ d_grace s' = g /\
   d_epochs s' = d_epochs s /\ d_cursor s' = d_cursor s /\ d_bal s' = d_bal s.
 Proof. exact set_grace_spec. Qed.
 
@@ -87,18 +104,19 @@ Definition nv_h : list dsevent :=
     (T0 + DAY + 5, DClaim 0 (Some 0) [(2, SOk Q); (1, SOk Q)]);             (* again: nothing to claim *)
     (T0 + 2 * DAY, DNewEpoch true 0);                                       (* epoch 1 expires: 7500 rolled into epoch 3 *)
     (T0 + 2 * DAY + 5, DSetGrace true 3); (T0 + 2 * DAY + 5, DSetGrace true 2);
+    (T0 + 2 * DAY + 5, DStray 1000); (T0 + 2 * DAY + 5, DStray 0);          (* a plain transfer; an empty one is refused *)
     (T0 + 2 * DAY + 6, DClaim 1 (Some 1) [(3, SOk (3 * Q)); (2, SOk (3 * Q)); (1, SPanic)]);
     (T0 + 3 * DAY, DNewEpoch false 99); (T0 + 3 * DAY, DNewEpoch true 99) ].
 
 Example C09_nonvacuous :
   dhist_wf nv_h /\
   dseffects nv_c (dinit 2) nv_h =
-    [FNew 1 10000; FNew 2 7777; FPaid 0 [2; 1] 4444; FNew 3 0; FGrace 3; FPaid 1 [3; 2] 11457; FNew 4 99] /\
+    [FNew 1 10000; FNew 2 7777; FPaid 0 [2; 1] 4444; FNew 3 0; FGrace 3; FStray 1000; FPaid 1 [3; 2] 11457; FNew 4 99] /\
   (let s := dsrun nv_c 2 nv_h in
    map (fun e => (de_id e, de_total e, de_avail e, de_claimed e)) (d_epochs s) =
      [(4, Some 99, Some 99, None); (3, Some 7500, Some 1875, Some 5625); (2, Some 7777, Some 1, Some 7776);
       (1, Some 10000, None, Some 2500)] /\
-   d_bal s = 1975 /\ d_grace s = 3 /\ d_cursor s = [(0, 2); (1, 3)]).
+   d_bal s = 2975 /\ sum_avail (d_epochs s) = 1975 /\ d_grace s = 3 /\ d_cursor s = [(0, 2); (1, 3)]).
 Proof.
   split.
   - unfold dhist_wf, nv_h, shares_wf. repeat constructor; cbn; unfold Q; try lia; try exact I.
@@ -108,6 +126,7 @@ Qed.
 Print Assumptions C09_invariant.
 Print Assumptions C09_epoch_ledger.
 Print Assumptions C09_distributor_solvent.
+Print Assumptions C09_distributor_exact_without_transfers.
 Print Assumptions C09_expired_empty.
 Print Assumptions C09_new_epoch_rollover.
 Print Assumptions C09_claim_exact.
